@@ -51,6 +51,21 @@ def run(ctx):
                         rec["kwargs"] = [[a, (None if a == "input_type" else v)] for a, v in rec["kwargs"]]
                 recs.append(rec); kinds.append(k); sh = o
             ctx.count("chained")
+        if i % 13 == 6:
+            # a convolution directly followed by a dense layer whose fan-in equals the *element count* of the conv output
+            # (what one writes when the flattening is left implicit): the chain is still exactly the given nodes
+            ck = rng.choice(["Conv1d", "Conv2d"])
+            ish = [rng.randrange(1, 3), rng.randrange(4, 8)] + ([rng.randrange(4, 8)] if ck == "Conv2d" else [])
+            crec = gen.node_recipe(rng, ck, sh=ish, meta_p=0.0)
+            o = gen.out_shape_of(ck, crec, ish)
+            if o and all(v > 0 for v in o):
+                dense = rng.choice(["Linear", "Affine"])
+                fan = int(np.prod(o)); m = rng.randrange(1, 4)
+                kw = [["weight", gen.arr(rng, [m, fan], "<f8")]] + ([["bias", gen.arr(rng, [m], "<f8")]] if dense == "Affine" else [])
+                recs, kinds = [crec, {"type": dense, "kwargs": kw}], [ck, dense]
+                if rng.random() < 0.5:
+                    recs.append(gen.node_recipe(rng, "Flatten", meta_p=0.0)); kinds.append("Flatten")
+                ctx.count("conv_then_dense_by_element_count")
         if first_input:
             r0 = gen.node_recipe(rng, "Input", meta_p=0.0)
             if rng.random() < 0.35:
